@@ -57,7 +57,7 @@ CACHE_TB = [
     "exercises it), Go map semantics as association lists",
 ]
 
-TREE_ACTIONS = ("scenario", "srv", "start", "release", "relist", "attach", "refilter", "close", "closeroot", "cancel",
+TREE_ACTIONS = ("scenario", "instant", "srv", "start", "release", "relist", "attach", "refilter", "close", "closeroot", "cancel",
                 "stall", "unstall", "burst-begin", "burst-end", "end")
 FSUB_KINDS = ("subf", "subd", "clonef", "cloned")
 
@@ -273,7 +273,7 @@ PROPS = {
                 "delay the cache must equal the server state; every Watch() must resume from a version the controller has received. "
                 "Non-trivial: an observation that carried events or list/watch calls.",
         "trusted_base": CTRL_TB,
-        "assumptions": ["as C03"],
+        "assumptions": ["as C03", "the changes one reconnect replays stay below EventBufsiz/4: overflow of the watch-side buffers (the code logs 'event missed') is a fault of the kind C03 covers, repaired by the next relist"],
     },
     "C14": {
         "engines": [ctrl_engine("c14", ("C14",), 500, 8000), ctrl_engine("", ("C14",), 300, 4000)],
